@@ -66,8 +66,11 @@ func drainChannel[T any](ch <-chan T) {
 
 func cleanInfiniteChannel(ch *channels.InfiniteChannel) {
 	ch.Close()
-	// drain all remaining items
-	drainChannel(ch.Out())
+	// drain all remaining items. The pump goroutine closes Out() once the
+	// buffer is empty; a non-blocking drain can return while items are still
+	// buffered, which would leave that goroutine blocked forever.
+	for range ch.Out() {
+	}
 }
 
 // Returns the binary formatted Administrative Shutdown Communication from the
